@@ -82,6 +82,195 @@ func runAuthDom(c *Ctx) {
 		s, ok := t.Underlying().(*types.Slice)
 		return ok && (isConnType(s.Elem()) || strings.HasSuffix(s.Elem().String(), "dumbExtraConn"))
 	}
+	// connections that travel through a channel: a value received from a channel is authenticated when every send into that
+	// channel (anywhere below the same declared function) sends a connection that is authenticated at the send, a composite
+	// value whose connection fields are, or a closure parameter whose every call site passes such a value
+	treeOf := func(root *FuncInfo) []*FuncInfo {
+		var out []*FuncInfo
+		var walk func(g *FuncInfo)
+		walk = func(g *FuncInfo) {
+			out = append(out, g)
+			for _, k := range g.Kids {
+				walk(k)
+			}
+		}
+		walk(root)
+		return out
+	}
+	var valueAuthed func(g *FuncInfo, ref NodeRef, e ast.Expr, depth int) bool
+	valueAuthed = func(g *FuncInfo, ref NodeRef, e ast.Expr, depth int) bool {
+		info := g.Info()
+		e = ast.Unparen(e)
+		if depth > 3 {
+			return false
+		}
+		switch v := e.(type) {
+		case *ast.CompositeLit:
+			for _, el := range v.Elts {
+				val := el
+				if kv, ok := el.(*ast.KeyValueExpr); ok {
+					val = kv.Value
+				}
+				if isConnType(info.TypeOf(val)) && !valueAuthed(g, ref, val, depth+1) {
+					return false
+				}
+			}
+			return true
+		case *ast.Ident:
+			if v.Name == "nil" {
+				return true
+			}
+			o := ObjOf(info, v)
+			if o == nil {
+				return false
+			}
+			if isConnType(o.Type()) {
+				return spec.Passed(g, ref, fmt.Sprintf("auth:%d", spec.objID(o)))
+			}
+			// parameter of a closure: judged at the call sites of the closure
+			if g.Lit == nil || g.Type.Params == nil {
+				return false
+			}
+			idx, k := -1, 0
+			for _, fld := range g.Type.Params.List {
+				for _, nm := range fld.Names {
+					if info.Defs[nm] == o {
+						idx = k
+					}
+					k++
+				}
+			}
+			if idx < 0 {
+				return false
+			}
+			sites := 0
+			for _, h := range treeOf(g.Root()) {
+				okAll := true
+				h.CFG().Calls(func(r NodeRef, call *ast.CallExpr) {
+					if p.CalleeInfo(h.Info(), call) != g || len(call.Args) <= idx {
+						return
+					}
+					sites++
+					if !valueAuthed(h, r, call.Args[idx], depth+1) {
+						okAll = false
+					}
+				})
+				if !okAll {
+					return false
+				}
+			}
+			return sites > 0
+		}
+		return false
+	}
+	chanMemo := map[types.Object]bool{}
+	var chanAuthed func(root *FuncInfo, ch types.Object) bool
+	chanAuthed = func(root *FuncInfo, ch types.Object) bool {
+		if v, ok := chanMemo[ch]; ok {
+			return v
+		}
+		chanMemo[ch] = false
+		// a channel parameter of a declared function: judged by the channels its callers pass
+		if root.Decl != nil && root.Obj != nil && root.Type.Params != nil {
+			idx, k := -1, 0
+			for _, fld := range root.Type.Params.List {
+				for _, nm := range fld.Names {
+					if root.Info().Defs[nm] == ch {
+						idx = k
+					}
+					k++
+				}
+			}
+			if idx >= 0 {
+				sites, okAll := 0, true
+				for _, st := range p.CallSites(root.Obj) {
+					InspectNoLits(st.ref.Node(), func(nd ast.Node) bool {
+						call, ok := nd.(*ast.CallExpr)
+						if !ok || p.CalleeInfo(st.f.Info(), call) != root || len(call.Args) <= idx {
+							return true
+						}
+						sites++
+						arg := ast.Unparen(call.Args[idx])
+						if id, isId := arg.(*ast.Ident); isId && id.Name == "nil" {
+							return true
+						}
+						if ao := ObjOf(st.f.Info(), arg); ao == nil || !chanAuthed(st.f.Root(), ao) {
+							okAll = false
+						}
+						return true
+					})
+				}
+				chanMemo[ch] = sites > 0 && okAll
+				return chanMemo[ch]
+			}
+		}
+		n, okAll := 0, true
+		for _, g := range treeOf(root) {
+			info := g.Info()
+			g.CFG().EachNode(func(r NodeRef) {
+				ss, ok := r.Node().(*ast.SendStmt)
+				if !ok || ObjOf(info, ss.Chan) != ch {
+					return
+				}
+				n++
+				if !valueAuthed(g, r, ss.Value, 0) {
+					okAll = false
+				}
+			})
+		}
+		chanMemo[ch] = n > 0 && okAll
+		return chanMemo[ch]
+	}
+	// fromAuthedChan: e is x or x.<conn field> where every definition of x in f is a receive from an authenticated channel
+	fromAuthedChan := func(f *FuncInfo, e ast.Expr) bool {
+		info := f.Info()
+		e = ast.Unparen(e)
+		if !isConnType(info.TypeOf(e)) {
+			return false
+		}
+		x := e
+		if sel, ok := e.(*ast.SelectorExpr); ok {
+			x = ast.Unparen(sel.X)
+		}
+		xo := ObjOf(info, x)
+		if xo == nil {
+			return false
+		}
+		n, okAll := 0, true
+		InspectNoLits(f.Body, func(nd ast.Node) bool {
+			as, ok := nd.(*ast.AssignStmt)
+			if !ok {
+				return true
+			}
+			for i, l := range as.Lhs {
+				if ObjOf(info, l) != xo {
+					continue
+				}
+				n++
+				if len(as.Rhs) != 1 && len(as.Rhs) != len(as.Lhs) {
+					okAll = false
+					continue
+				}
+				rhs := as.Rhs[0]
+				if len(as.Rhs) == len(as.Lhs) {
+					rhs = as.Rhs[i]
+				} else if i != 0 {
+					continue // the ok of `x, ok := <-ch`
+				}
+				u, isRecv := ast.Unparen(rhs).(*ast.UnaryExpr)
+				if !isRecv || u.Op != token.ARROW {
+					okAll = false
+					continue
+				}
+				ch := ObjOf(info, u.X)
+				if ch == nil || !chanAuthed(f.Root(), ch) {
+					okAll = false
+				}
+			}
+			return true
+		})
+		return n > 0 && okAll
+	}
 	// producers: functions returning a conn slice whose every append is authenticated
 	producers := map[*FuncInfo]bool{}
 	for _, f := range p.FuncsIn("internal/app") {
@@ -126,6 +315,9 @@ func runAuthDom(c *Ctx) {
 						if o := ObjOf(info, e3); o != nil && spec.Passed(f, r, fmt.Sprintf("auth:%d", spec.objID(o))) {
 							authed = true
 						}
+					}
+					if !authed && fromAuthedChan(f, connExpr) {
+						authed = true
 					}
 				}
 				if !authed {
@@ -226,7 +418,11 @@ func runAuthDom(c *Ctx) {
 								okDef = false
 							}
 						case *ast.Ident:
-							if mo := ObjOf(info, v); mo == nil || !connDerived(f, info, mo, authSlice, p) {
+							if mo := ObjOf(info, v); mo == nil || !(connDerived(f, info, mo, authSlice, p) || fromAuthedChan(f, v)) {
+								okDef = false
+							}
+						case *ast.SelectorExpr:
+							if !fromAuthedChan(f, v) {
 								okDef = false
 							}
 						default:
@@ -276,7 +472,7 @@ func runAuthDom(c *Ctx) {
 					return true
 				}
 			}
-			return false
+			return fromAuthedChan(f, e)
 		}
 		// fixpoint over slice variables
 		type sasg struct {
